@@ -4,4 +4,5 @@
 cd "$(dirname "$0")" || exit 2
 /venv/bin/python -c 'import hypothesis' 2>/dev/null || \
   /venv/bin/pip install --no-index --find-links /opt/veriftools/wheels hypothesis || exit 1
+/venv/bin/python -c "import sys; sys.path.insert(0, '.deps'); import atheris" 2>/dev/null || /venv/bin/pip install -q --no-index --find-links /opt/veriftools/wheels --target .deps atheris || echo "atheris not available (thorough-tier add-on of C02 is skipped)"
 /venv/bin/python -c 'import hypothesis, lxml, requests, pywbem, pywbem_mock; print("setup ok: hypothesis", hypothesis.__version__)'
